@@ -35,6 +35,31 @@ def strip_names(table):
              [[ty(f['ty']), f['cond'], f['optional'], f['dflt']] for f in s['fields']]] for s in table]
 
 
+def _scramble(x, depth=0):
+    """What an application may do to a message it received: edit every list in place (recursively), overwrite fields."""
+    import dataclasses
+    if depth > 6:
+        return
+    if isinstance(x, list):
+        for y in x:
+            _scramble(y, depth + 1)
+        if x:
+            x.append(x[0])
+            x.reverse()
+        else:
+            x.append(None)
+    elif dataclasses.is_dataclass(x) and not isinstance(x, type):
+        for f in dataclasses.fields(x):
+            v = getattr(x, f.name, None)
+            if isinstance(v, list) or dataclasses.is_dataclass(v):
+                _scramble(v, depth + 1)
+            else:
+                try:
+                    setattr(x, f.name, None)
+                except Exception:  # noqa: BLE001  (frozen dataclass)
+                    pass
+
+
 def eval_case(args):
     """Worker: run the REAL code for one (schema idx, values) case; returns observations."""
     table, idx, vals = args
@@ -71,6 +96,22 @@ def eval_case(args):
             mon.append(('C01-roundtrip', f'{s["name"]}.{d}: class round trip differs', repr(back2)[:300]))
     except Exception as e:  # noqa: BLE001
         mon.append(('C01-roundtrip', f'{s["name"]}.{d}: decoding own encoding raised {type(e).__name__}: {e}', None))
+    # decoding is a function of the bytes alone, encoding of the value alone: what an application does to a message it
+    # was handed (the library passes decoded lists straight to events) must not show up in a later decode, and
+    # serialising must neither change the message nor depend on earlier calls
+    try:
+        clsname, meth = wc.FAMILY_DISPATCH[(fam, d)]
+        first = getattr(getattr(m, clsname), meth)(data)
+        _scramble(first)
+        again = getattr(getattr(m, clsname), meth)(data)
+        if again != obj:
+            mon.append(('C01-roundtrip', f'{s["name"]}.{d}: decoding the same bytes again, after the application edited the '
+                        f'first decoded message in place, yields a different message (decoded messages share state)',
+                        repr(again)[:300]))
+        if obj.serialize() != data or obj != wc.build(m, p, s, vals):
+            mon.append(('C01-roundtrip', f'{s["name"]}.{d}: serialising twice gives different bytes / changes the message', None))
+    except Exception as e:  # noqa: BLE001
+        mon.append(('C01-roundtrip', f'{s["name"]}.{d}: repeated decode/encode raised {type(e).__name__}: {e}', None))
     (n,) = struct.unpack('<I', data[:4])
     if n != len(data) - 4:
         mon.append(('C01-length-prefix', f'{s["name"]}.{d}: prefix {n} != {len(data) - 4}', None))
